@@ -958,3 +958,20 @@ def ctl_skip_transitions_when_canceling(ctx):
     return _edit_control(ctx, "skip_transitions_when_canceling", COND,
                          "WorkflowConductor.update_task_state", pred, repl, [SH.rule_P15],
                          what="transitions skipped under an extra condition")
+
+
+def ctl_reuse_retry_entry(ctx):
+    """add_task_state evaluates the retry entry only for the first record of a task."""
+    import ast
+    from sa import shape as SH
+
+    def pred(n):
+        return isinstance(n, ast.If) and "task_has_retry" in ast.unparse(n.test)
+
+    def repl(n):
+        extra = ast.parse("not self.get_task_state_entry(task_id, route)", mode="eval").body
+        n.test = ast.BoolOp(op=ast.And(), values=[n.test, extra])
+        return n
+
+    return _edit_control(ctx, "reuse_retry_entry", COND, "WorkflowConductor.add_task_state",
+                         pred, repl, [SH.rule_P16], what="retry entry not evaluated for later records")
